@@ -84,9 +84,15 @@ NumUnary(f, a, k) ==
     [] f = "numpy.broadcast_to" -> IF Len(a) = 1 THEN <<a[1], a[1]>> ELSE NA  \* numpy.broadcast_to(a, (2,))
 
 NumSqrt(a) == IF \A i \in 1..Len(a) : a[i][1] >= 0 /\ RIsSquare(a[i]) THEN Map1(RSqrt, a) ELSE NA
-RPowRat(a, k) == IF k[2] = 1 THEN RPowInt(a, k[1]) ELSE RPowInt(RSqrt(a), k[1])
-PowOK(a, k) == /\ k[2] \in {1, 2} /\ Abs(k[1]) <= 4
+\* exact cube roots of small non-negative rationals (exponents with denominator 3)
+ICbrtM(n) == CHOOSE s \in 0..46 : s * s * s = n
+IsCubeM(n) == \E s \in 0..46 : s * s * s = n
+RIsCubeM(a) == a[1] >= 0 /\ IsCubeM(a[1]) /\ IsCubeM(a[2])
+RCbrtM(a) == <<ICbrtM(a[1]), ICbrtM(a[2])>>
+RPowRat(a, k) == IF k[2] = 1 THEN RPowInt(a, k[1]) ELSE IF k[2] = 2 THEN RPowInt(RSqrt(a), k[1]) ELSE RPowInt(RCbrtM(a), k[1])
+PowOK(a, k) == /\ k[2] \in {1, 2, 3} /\ Abs(k[1]) <= 4
                /\ (k[2] = 2 => a[1] >= 0 /\ RIsSquare(a))
+               /\ (k[2] = 3 => RIsCubeM(a))
                /\ (k[1] < 0 => a # Zero)
 NumPow(a, k) == IF TinyV(a) /\ \A i \in 1..Len(a) : PowOK(a[i], k) THEN Chk([i \in 1..Len(a) |-> RPowRat(a[i], k)]) ELSE NA
 
